@@ -1141,6 +1141,9 @@ func (x *Exec) evalIdent(st *State, env *Env, name string) Value {
 	// the entry values of parameters first and other locals afterwards
 	for c := env; c != nil; c = c.parent {
 		if v, ok := c.vars[name]; ok {
+			if po, bad := v.(*Poison); bad {
+				fail("%s", po.msg)
+			}
 			return v
 		}
 		if c.frame != nil && c.frameFirst {
